@@ -172,6 +172,9 @@ func checkWellFormed(k *Checker, is *Issued, s *slot) {
 			continue
 		}
 		got := CTFields(o.Obj.(*ctx509.Certificate))
+		if want["ExtKeyUsage.hasCT(D1)"] == true {
+			k.Rep.Add("D1_ct_eku_cases", 1)
+		}
 		if d := DiffFields(want, got, skip); len(d) > 0 {
 			k.violate("exact:"+e.Name+":"+d[0], fmt.Sprintf("%s reports %s = %v, the standard library reports %v for the same bytes (template %s; all differing fields: %v)",
 				e.Name, d[0], got[d[0]], want[d[0]], is.T.ID(), d), e.Name, in, map[string]any{"template": is.T, "kind": "wellformed"})
